@@ -51,6 +51,8 @@ void classify(const sess::Session& s, const sess::RunResult& r, vh::Stats& st) {
         if (c.kind == "eof" && i > 0 && s.cmds[i - 1].kind == "go") eofDuring = true;
     }
     if (ponderhit) st.clsSample("ponder + ponderhit", mk);
+    { bool ob = false; for (auto& c : s.cmds) { if (c.text.find("OwnBook value true") != std::string::npos) ob = true; if (ob && c.kind == "go" && (c.goPonder || c.goInfinite)) { st.clsSample("OwnBook + ponder/infinite go", mk); break; } } }
+    { bool sr = false; for (size_t i = 0; i + 1 < s.cmds.size(); i++) if (s.cmds[i].kind == "ucinewgame") sr = true; if (sr && r.cmdsDuringSearch > 0) st.cls("ucinewgame in a session with commands during search"); }
     if (backToBack) st.clsSample("back-to-back go", mk);
     if (quitDuring) st.clsSample("quit right after go", mk);
     if (eofDuring) st.clsSample("EOF right after go", mk);
@@ -70,7 +72,7 @@ void runSession(const std::string& sub, const sess::Session& s, vh::Stats& st, i
         if (rep == 0) classify(s, r, st);
         st.count("transcript lines", (long)r.log.size());
         if (!e.empty()) {
-            if (r.hang) vh::ctx().shrinkBudget = std::min<long>(vh::ctx().shrinkBudget, 4); // every re-execution of a hang costs 45 s
+            if (r.hang || r.stillBusy) vh::ctx().shrinkBudget = std::min<long>(vh::ctx().shrinkBudget, 4); // every re-execution of a hang costs 45 s
             vh::fail(caseJson(s, &r), e);
         }
     }
